@@ -4,8 +4,9 @@
   the next page, whose header gets XLP_FIRST_IS_CONTRECORD and xlp_rem_len = the bytes of the record still
   to come.  This encoder also says where it put each record (`Placed`), which is what a reader must report.
   `encSegment` (cut the stream of usable bytes into pages, positions by XLogBytePosToRecPtr arithmetic) and
-  `encSegmentOp` are two independently written descriptions of one layout; the driver compares them on every
-  generated segment (family walseg, tag `layout=agree`).
+  `encSegmentOp` are two independently written descriptions of one layout; they are proved equal
+  (Props/C17.lean `C17_encoders_agree`), and the driver still compares them on every generated segment
+  (family walseg, tag `layout=agree`).
 -/
 import PgVerif.Spec.Wal
 namespace PgVerif.Spec.Wal
@@ -13,20 +14,17 @@ open PgVerif
 
 /-- what follows the last whole record on a page -/
 inductive Trailer where
-  | short (bs : Bytes)              -- fewer than 24 bytes are left: zeros, or the first 8/16 bytes of a header that straddles
-  | zeros (bs : Bytes)              -- padding: it starts with at least 8 zero bytes
-  | cut (r : WalRecord) (n : Nat)   -- the first `n` bytes (at least the header) of a record that continues on the next page
+  | zeros (bs : Bytes)              -- padding: nothing, or bytes of which the first 8 are zero
+  | cut (r : WalRecord) (n : Nat)   -- the first `n` bytes (at least 8: xl_tot_len) of a record that continues on the next page
 deriving Repr, Inhabited
 
 def Trailer.bytes : Trailer → Bytes
-  | .short bs => bs
   | .zeros bs => bs
   | .cut r n => (encRecord r).take n
 
 def Trailer.WF : Trailer → Prop
-  | .short bs => bs.length < 24
   | .zeros bs => (bs.take 8).all (· == 0) = true
-  | .cut r n => r.WF ∧ 24 ≤ n ∧ n < r.totLen
+  | .cut r n => r.WF ∧ 8 ≤ n ∧ n < r.totLen
 
 /-- how a record was placed, with the log position of its first byte -/
 inductive Placed where
@@ -45,15 +43,14 @@ deriving Repr, Inhabited
 
 /-- fill the page at address `addr` from in-page position `p` with the records `rs` -/
 def fillPage (addr : Nat) : Nat → List WalRecord → PageFill
-  | p, [] =>
-    ⟨[], (if 8192 - p < 24 then .short (zeros (8192 - p)) else .zeros (zeros (8192 - p))), [], [], []⟩
+  | p, [] => ⟨[], .zeros (zeros (8192 - p)), [], [], []⟩
   | p, r :: rs =>
     if p + align8 r.totLen ≤ 8192 then
       let f := fillPage addr (p + align8 r.totLen) rs
       { f with whole := r :: f.whole, placed := .whole (addr + p) r :: f.placed }
-    else if p ≥ 8192 then ⟨[], .short [], [], [], r :: rs⟩
-    else if 8192 - p ≥ 24 then ⟨[], .cut r (8192 - p), [.cut (addr + p) r], (encRecord r).drop (8192 - p), rs⟩
-    else ⟨[], .short ((encRecord r).take (8192 - p)), [.straddle (addr + p) r], (encRecord r).drop (8192 - p), rs⟩
+    else if p ≥ 8192 then ⟨[], .zeros [], [], [], r :: rs⟩
+    else ⟨[], .cut r (8192 - p), [if 8192 - p ≥ 24 then .cut (addr + p) r else .straddle (addr + p) r],
+          (encRecord r).drop (8192 - p), rs⟩
 
 structure Layout where
   bytes : Bytes
@@ -84,17 +81,14 @@ def WalSegment.layout (s : WalSegment) : Layout := layoutPages s (s.streamLen / 
 
 def encSegmentOp (s : WalSegment) : Bytes := s.layout.bytes ++ zeros (8192 * s.tailPages)
 
-/-- what must be reported for a placed record (the two `none`/`blocks := []` cases are the known findings
-C17-straddling-header and C17-crosspage-blocks: a complete reader would report `recView lsn r` for all three) -/
-def Placed.reported : Placed → Option RecView
-  | .whole lsn r => some (recView lsn r)
-  | .cut lsn r => some { recView lsn r with blocks := [] }
-  | .straddle _ _ => none
-
 def Placed.lsn : Placed → Nat
   | .whole l _ => l | .cut l _ => l | .straddle l _ => l
 
 def Placed.record : Placed → WalRecord
   | .whole _ r => r | .cut _ r => r | .straddle _ r => r
+
+/-- what must be reported for a placed record, however it was placed: all its fields and block references,
+at the position of its first byte -/
+def Placed.view (p : Placed) : RecView := recView p.lsn p.record
 
 end PgVerif.Spec.Wal
